@@ -849,7 +849,7 @@ PROPS["C01"] = {
                   "— regression witness corpus/C01/let_in_if_branch; F41 (an integer constant whose C++ spelling is a long literal — "
                   "outside int, or -2147483648 — as argument of Math.max/min: std::max/min deduction fails in every argument "
                   "order, the header does not compile) — KNOWN, attributed semantically by the driver tag f41-spec-c01 (quick 0, "
-                  "thorough 16 batches, corpus 7, no unattributed failure). Spec.Sem scopes the statement list of each switch clause separately (declarations end with the clause, also on fall-through; later clauses see the outer variable) — the language after repair 0aff63c (F100); stated deviation from ECMAScript, where the case block is one scope; regression witnesses corpus/C01/switch_clause_scope.c01.req, corpus/C13/switch_clause_scope.c13.req, targeted labels switch-clause-scope-*",
+                  "thorough 16 batches, corpus 7, no unattributed failure). Spec.Sem scopes the statement list of each switch clause separately (declarations end with the clause, also on fall-through; later clauses see the outer variable) — the language after repair 0aff63c (F100); stated deviation from ECMAScript, where the case block is one scope; regression witnesses corpus/C01/switch_clause_scope.c01.req, corpus/C13/switch_clause_scope.c13.req, targeted labels switch-clause-scope-*. The translation context of qsTr is observed in the value comparison: Spec.Sem's qsTr is parameterised by the document type name (Ctx.docType, Host.tr), the runtime mock's QCoreApplication::translate returns `<context>source` (injective in (context, source)), every document has an anonymous root (generated name `widget`) and a type name `T<k>` / `MyType` different from it; bindings (spec-c01, c01-ir) and signal handlers (spec-c13) alike; targeted label tr-context, witnesses corpus/C01/tr_context.c01.req, corpus/C13/tr_context.c13.req. Not covered by execution: bindings in gadget / attached / nested maps (the harness documents bind plain properties of one object; one translator per document serves them all).",
     "technique": "Lean 4 proof (per-construct compiler correctness lemmas over an executable reference semantics) + specification-judged "
                  "execution of the real generated C++ and of the real IR",
 }
@@ -906,7 +906,7 @@ PROPS["C13"] = {
                   "contradicts a pinned snapshot), attributed semantically by the driver tag f42-spec-c13: the real traces must equal "
                   "Spec.Sem with ONLY the arguments-first deviation (quick 5, thorough 43 batches); F44 (F41's cause in a handler: "
                   "long literal as argument of Math.max/min or of the overloaded slot bump(int)/bump(double): header does not compile) — "
-                  "KNOWN, tag f41-spec-c13 (quick 1, thorough 9); no unattributed failure in either tier. Spec.Sem scopes the statement list of each switch clause separately (declarations end with the clause, also on fall-through; later clauses see the outer variable) — the language after repair 0aff63c (F100); stated deviation from ECMAScript, where the case block is one scope; regression witnesses corpus/C01/switch_clause_scope.c01.req, corpus/C13/switch_clause_scope.c13.req, targeted labels switch-clause-scope-*",
+                  "KNOWN, tag f41-spec-c13 (quick 1, thorough 9); no unattributed failure in either tier. Spec.Sem scopes the statement list of each switch clause separately (declarations end with the clause, also on fall-through; later clauses see the outer variable) — the language after repair 0aff63c (F100); stated deviation from ECMAScript, where the case block is one scope; regression witnesses corpus/C01/switch_clause_scope.c01.req, corpus/C13/switch_clause_scope.c13.req, targeted labels switch-clause-scope-*. The translation context of qsTr is observed in the value comparison: Spec.Sem's qsTr is parameterised by the document type name (Ctx.docType, Host.tr), the runtime mock's QCoreApplication::translate returns `<context>source` (injective in (context, source)), every document has an anonymous root (generated name `widget`) and a type name `T<k>` / `MyType` different from it; bindings (spec-c01, c01-ir) and signal handlers (spec-c13) alike; targeted label tr-context, witnesses corpus/C01/tr_context.c01.req, corpus/C13/tr_context.c13.req. Not covered by execution: bindings in gadget / attached / nested maps (the harness documents bind plain properties of one object; one translator per document serves them all).",
     "technique": "Lean 4 proof (overload choice, parameter rule, name mapping) + specification-judged execution of the real generated C++",
 }
 
